@@ -206,6 +206,27 @@ func runC07(c *ctx) {
 				}
 			}
 		}
+		// API scenarios (c07_api.go): Close during every kind of in-flight operation, during Open,
+		// with on-close functions, on platform-built drivers, before / after a failed Open, from two
+		// goroutines, while data streams in; each with varied transport close behaviour
+		rounds := 3
+		if c.thorough() {
+			rounds = 24
+		}
+		for r := 0; r < rounds*c.scale; r++ {
+			for _, sc := range c07ApiScenarios {
+				kinds := sc.Kinds
+				if sc.Name == "op-rpc-reply" {
+					kinds = "cccc" // the window "reply stored while Close runs" is narrow: more tries
+				}
+				for _, kd := range kinds {
+					k++
+					specs = append(specs, c07Spec{Api: sc.Name, NC: kd == 'c', Net: kd == 'n', Plat: kd == 'p', Mode: c.rng.Intn(2),
+						Twice: c.rng.Chance(1, 3), CloseErr: c.rng.Chance(1, 4), Slow: c.rng.Chance(1, 4),
+						Alive: []int{0, 0, 1, 2}[c.rng.Intn(4)], Jit: 1 + c.rng.Intn(1<<20)})
+				}
+			}
+		}
 		n := c.n(480, 4000)
 		if n > 4000 {
 			n = 4000 // the failing-input search widens by -scale; keep a run within minutes
@@ -217,7 +238,11 @@ func runC07(c *ctx) {
 			if c.rng.Chance(1, 2) {
 				alive = 1 + c.rng.Intn(2)
 			}
-			specs = append(specs, c07Spec{NC: nc, Net: !nc && c.rng.Bool(), Mode: c.rng.Intn(3), Twice: c.rng.Chance(1, 3), HasOp: hasOp,
+			pre := c.rng.Chance(1, 25) // Close before Open
+			if pre {
+				hasOp = false
+			}
+			specs = append(specs, c07Spec{NC: nc, Net: !nc && c.rng.Bool(), PreOpen: pre, Mode: c.rng.Intn(3), Twice: c.rng.Chance(1, 3), HasOp: hasOp,
 				CloseErr: c.rng.Chance(1, 3), Alive: alive, Sched: c07GenSched(c.rng, nc, hasOp)})
 		}
 	}
@@ -240,7 +265,7 @@ func runC07(c *ctx) {
 	var lines []string
 	var idx []int
 	for i, o := range obs {
-		if o.spec.Natural != "" || o.fin == nil && len(o.events) == 0 {
+		if o.spec.Natural != "" || o.spec.Api != "" || o.fin == nil && len(o.events) == 0 {
 			continue
 		}
 		initR, initN := "blocked", "absent"
@@ -307,12 +332,21 @@ func runC07(c *ctx) {
 		if o.spec.Natural != "" {
 			kind = "natural:" + o.spec.Natural
 		}
+		if o.spec.Api != "" {
+			kind = "api:" + o.spec.Api
+		}
 		res.Count("kind:" + kind)
 		drv := "generic"
 		if o.spec.NC {
 			drv = "netconf"
 		} else if o.spec.Net {
 			drv = "network"
+		} else if o.spec.Plat {
+			drv = "platform"
+		}
+		if o.spec.Api != "" {
+			res.Count("api:" + o.spec.Api + ":" + drv)
+			res.Count(fmt.Sprintf("api-transport:cerr=%s,slow=%s,alive=%d", c07b01(o.spec.CloseErr), c07b01(o.spec.Slow), o.spec.Alive))
 		}
 		res.Count(fmt.Sprintf("cfg:drv=%s,mode=%d,twice=%s,cerr=%s,alive=%d", drv, o.spec.Mode, c07b01(o.spec.Twice), c07b01(o.spec.CloseErr), o.spec.Alive))
 		res.InDomain++
@@ -324,7 +358,7 @@ func runC07(c *ctx) {
 			}
 		}
 		res.Case(key, true)
-		if o.fin != nil && o.spec.Natural == "" && !o.fin.Controlled {
+		if o.fin != nil && o.spec.Natural == "" && o.spec.Api == "" && !o.fin.Controlled {
 			hooksMissing = true
 		}
 		if o.setupErr != "" {
@@ -347,8 +381,16 @@ func runC07(c *ctx) {
 		}
 		f := o.fin
 		want := 1
-		if o.spec.Twice {
+		if o.spec.Twice || o.spec.Api == "concurrent" {
 			want = 2
+		}
+		// which clauses apply: "the transport is closed" is demanded after a successful open (and
+		// whenever Open got as far as opening the transport); for two concurrent Close calls it is
+		// demanded once both have returned (the one that loses the race may return first)
+		transportClause := o.spec.Api == "" || f.Opened || f.OpenCalls > 0
+		perCall := o.spec.Api != "concurrent" && (o.spec.Api == "" || f.Opened)
+		if o.spec.PreOpen {
+			res.Count("kind:forced-pre-open")
 		}
 		hung := -1
 		for k := 0; k < want; k++ {
@@ -367,7 +409,7 @@ func runC07(c *ctx) {
 			// "the transport is closed": when a Close call returns, the transport implementation's
 			// Close has been called (at least once; the model says exactly once, which the
 			// end-state correspondence below compares)
-			for k := 0; k < want && k < len(f.CallsAtRet); k++ {
+			for k := 0; perCall && k < want && k < len(f.CallsAtRet); k++ {
 				if f.CallsAtRet[k] < 1 {
 					res.Fail("oracle", cas, fmt.Sprintf("Close call #%d returned (err=%q) but the transport implementation's Close had not been called (%s; IsAlive variant %d); events: %v",
 						k+1, f.CloseErr[k], kind, o.spec.Alive, o.events), fmt.Sprintf("transport-not-closed:close#%d", k+1))
@@ -376,8 +418,8 @@ func runC07(c *ctx) {
 					break
 				}
 			}
-			if !bad && f.CloseCalls < 1 {
-				res.Fail("oracle", cas, "Close returned but the transport was never closed", "transport-not-closed")
+			if !bad && transportClause && f.CloseCalls < 1 {
+				res.Fail("oracle", cas, fmt.Sprintf("Close returned but the transport was never closed (%s; notes %v)", kind, f.ApiNotes), "transport-not-closed")
 				bad = true
 			}
 			var leaked []string
@@ -390,13 +432,13 @@ func runC07(c *ctx) {
 				leaked = append(leaked, g)
 			}
 			if len(leaked) > 0 {
-				res.Fail("oracle", cas, fmt.Sprintf("library goroutines outlive Close (%s): %v; events: %v", kind, leaked, o.events),
+				res.Fail("oracle", cas, fmt.Sprintf("library goroutines outlive Close (%s): %v; events: %v; notes: %v", kind, leaked, o.events, f.ApiNotes),
 					"leak:"+strings.Join(leaked, ","))
 				res.Count("outcome:leak")
 				bad = true
 			}
 			if f.OpStarted && !f.OpReturned {
-				res.Fail("oracle", cas, "the in-flight operation never returned", "hang:operation")
+				res.Fail("oracle", cas, fmt.Sprintf("the in-flight operation / Open never returned (%s); goroutines left: %v", kind, f.Alive), "hang:operation")
 				bad = true
 			}
 		}
@@ -433,7 +475,7 @@ func runC07(c *ctx) {
 				}
 			}
 			kret := fm["k"] == "ret" && (!o.spec.Twice || fm["second"] == "1")
-			rdead := fm["r"] == "dead"
+			rdead := fm["r"] == "dead" || fm["r"] == "never"
 			ndead := fm["n"] == "dead" || fm["n"] == "absent"
 			// what the last completed Close returned (the transport's error or nil)
 			errOK := true
